@@ -624,4 +624,29 @@ def _shared(E: Engine, rep: Report) -> dict:
                                         mutated = True
                 rep.check(not mutated, "SHARED", f"{c.short}|class-level-mutable|{name}", "class-level mutable is never mutated through an instance", f"class-level mutable {c.short}.{name} = {norm(v)} is mutated in a method: all instances share it", E.where_mod(c.module.relpath, v))
     rep.ok("SHARED", "program|class-attribute-assignments", f"{n_cls_assign} class-attribute assignments in {len(P.functions)} functions", "", nontrivial=True)
-    return {"class_attribute_assignments": n_cls_assign, "mutable_default_arguments": n_mutable_defaults, "class_level_mutables": n_class_mutables}
+    # one object stored under many keys / in many slots: dict.fromkeys(keys, <object>) and [<object>] * n make every
+    # entry the *same* mutable object (an immutable constant is fine)
+    n_rep = 0
+    for m in P.modules.values():
+        for n in ast.walk(m.tree):
+            shared_val = None
+            if isinstance(n, ast.Call) and isinstance(n.func, ast.Attribute) and n.func.attr == "fromkeys" and isinstance(n.func.value, ast.Name) and n.func.value.id in ("dict", "OrderedDict", "defaultdict") and len(n.args) == 2:
+                shared_val = n.args[1]
+            elif isinstance(n, ast.BinOp) and isinstance(n.op, ast.Mult):
+                for side in (n.left, n.right):
+                    if isinstance(side, ast.List) and len(side.elts) == 1:
+                        shared_val = side.elts[0]
+            if shared_val is None:
+                continue
+            n_rep += 1
+            mutable = isinstance(shared_val, (ast.List, ast.Dict, ast.Set, ast.ListComp, ast.DictComp, ast.SetComp))
+            if isinstance(shared_val, ast.Call):
+                # an instance of a class of this program that is not an immutable record (frozen dataclass / NamedTuple / Enum)
+                cname = (dotted(shared_val.func) or "").split(".")[-1]
+                for c in P.classes.values():
+                    if c.name == cname:
+                        frozen = any("frozen=True" in norm(d) for d in c.node.decorator_list) or any((dotted(b) or "").split(".")[-1] in ("NamedTuple", "Enum", "IntEnum", "str") for b in c.node.bases)
+                        mutable = mutable or not frozen
+            rep.check(not mutable, "SHARED", f"{m.name.split('.')[-1]}|replicated-object|L{n.lineno}" if mutable else f"{m.name.split('.')[-1]}|replicated-constant|{norm(shared_val)[:30]}", "the replicated value is an immutable constant",
+                      f"`{norm(n)[:100]}` stores one and the same object `{norm(shared_val)[:40]}` under every key / in every slot: changing one entry's state changes all of them", f"{m.relpath}:{n.lineno}")
+    return {"class_attribute_assignments": n_cls_assign, "mutable_default_arguments": n_mutable_defaults, "class_level_mutables": n_class_mutables, "replications": n_rep}
